@@ -1,6 +1,6 @@
 //go:build verif
 
-package rpcv10
+package rpcv9
 
 // Contracts for gocv (contract-based deductive verification, /verif).
 
